@@ -1,55 +1,72 @@
 #!/venv/bin/python
 """Apply each seeded patch to a scratch copy of /repo's package and report which
-property checks fire.  usage: mutcheck.py [dir-with-patches ...]  (default /verif/seeded)
-A patch dir contains patch.diff.  Scratch copies live under $TMPDIR and are removed."""
-import json, os, shutil, subprocess, sys, tempfile
+property checks fire.  usage: mutcheck.py [-j N] [dir-with-patches ...]  (default /verif/seeded)
+A patch dir contains patch.diff (and optionally meta.json with "property").
+Scratch copies live under $TMPDIR and are removed."""
+import json, os, re, shutil, subprocess, sys, tempfile
+from multiprocessing import Pool
 sys.path.insert(0, os.path.dirname(os.path.dirname(os.path.abspath(__file__))))
-from sa.run import run_property
 
 PROPS = [f"C{i:02d}" for i in range(1, 19)]
 
+
+def one(d):
+    from sa.run import run_property
+    own = None
+    mp = os.path.join(d, "meta.json")
+    if os.path.exists(mp):
+        own = json.load(open(mp)).get("property")
+    if own is None:
+        m = re.search(r"(C\d\d)", d)
+        own = m.group(1) if m else None
+    tmp = tempfile.mkdtemp(prefix="mut_")
+    try:
+        shutil.copytree("/repo/codebasin", os.path.join(tmp, "codebasin"), ignore=shutil.ignore_patterns("__pycache__"))
+        r = subprocess.run(["patch", "-p1", "-s", "-i", os.path.join(d, "patch.diff")], cwd=tmp, capture_output=True, text=True)
+        if r.returncode != 0:
+            return (d, own, "PATCH-FAILED", r.stdout[-200:])
+        fired, errs = [], []
+        for p in PROPS:
+            try:
+                code, ev, out, viols, known, aerr = run_property(p, "quick", root=tmp, quiet=True, write_evidence=False)
+            except Exception as e:
+                viols, aerr = [], [repr(e)]
+            if viols:
+                fired.append((p, [f"{v.rule} {v.key[:90]}" for v in viols[:3]]))
+            if aerr and "no rules registered" not in str(aerr[0]):
+                errs.append((p, [str(aerr[0])[:160]]))
+        return (d, own, fired, errs)
+    finally:
+        shutil.rmtree(tmp, ignore_errors=True)
+
+
 def main():
-    roots = sys.argv[1:] or ["/verif/seeded"]
+    args = sys.argv[1:]
+    j = 16
+    if args and args[0] == "-j":
+        j = int(args[1]); args = args[2:]
+    roots = args or ["/verif/seeded"]
     dirs = []
     for r in roots:
         for dp, dn, fn in os.walk(r):
             if "patch.diff" in fn:
                 dirs.append(dp)
     dirs.sort()
-    summary = []
-    for d in dirs:
-        tmp = tempfile.mkdtemp(prefix="mut_")
-        try:
-            shutil.copytree("/repo/codebasin", os.path.join(tmp, "codebasin"), ignore=shutil.ignore_patterns("__pycache__"))
-            r = subprocess.run(["patch", "-p1", "-s", "-i", os.path.join(d, "patch.diff")], cwd=tmp, capture_output=True, text=True)
-            if r.returncode != 0:
-                summary.append((d, "PATCH-FAILED", r.stdout[-200:]))
-                continue
-            fired, errs = [], []
-            for p in PROPS:
-                try:
-                    code, ev, out, viols, known, aerr = run_property(p, "quick", root=tmp, quiet=True, write_evidence=False)
-                except Exception as e:
-                    code, viols, aerr = 2, [], [repr(e)]
-                if viols:
-                    fired.append((p, [f"{v.rule} {v.key[:80]}" for v in viols[:3]]))
-                if aerr and "no rules registered" not in str(aerr[0]):
-                    errs.append((p, aerr[:1]))
-            summary.append((d, fired, errs))
-        finally:
-            shutil.rmtree(tmp, ignore_errors=True)
-    caught = 0
-    for d, fired, errs in summary:
-        tag = "CAUGHT" if fired and fired != "PATCH-FAILED" else "MISSED"
+    with Pool(min(j, max(1, len(dirs)))) as pool:
+        summary = pool.map(one, dirs)
+    caught = own_caught = 0
+    for d, own, fired, errs in summary:
         if fired == "PATCH-FAILED":
-            tag = "PATCH-FAILED"
-        caught += tag == "CAUGHT"
-        print(f"{tag:7} {d}")
-        if isinstance(fired, list):
-            for p, v in fired:
-                print(f"          {p}: {v[0]}" + (f" (+{len(v)-1})" if len(v) > 1 else ""))
-        for p, e in (errs if isinstance(errs, list) else []):
-            print(f"          analysis-error {p}: {str(e[0])[:160]}")
-    print(f"caught {caught}/{len(summary)}")
+            print(f"PATCH-FAILED {d}: {errs}")
+            continue
+        byown = any(p == own for p, _ in fired)
+        tag = "CAUGHT-OWN" if byown else ("CAUGHT-OTHER" if fired else "MISSED")
+        caught += bool(fired); own_caught += byown
+        print(f"{tag:12} {d} (labelled {own})")
+        for p, v in fired:
+            print(f"          {p}: {v[0]}" + (f" (+{len(v)-1})" if len(v) > 1 else ""))
+        for p, e in errs:
+            print(f"          analysis-error {p}: {e[0]}")
+    print(f"caught {caught}/{len(summary)}; by the labelled property's own check {own_caught}/{len(summary)}")
 
 main()
